@@ -245,14 +245,14 @@ func extractC11() *lean {
 	rconds, rcalls := c11Conds(c11Method(issF, "StatusList2021", "Revoke"))
 	rc := c11Filter(rconds, "statusListIndex", "StatusPurpose", "isManaged", "ErrDuplicatedKey")
 	l.def("revokeConds", "List String", leanStrList(rc), rc)
-	rcl := c11Filter(rcalls, "Create", "updateCredential", "Transaction", "lockCredentialRecord", "Delete", "Update")
+	rcl := c11Filter(rcalls, "Create", "updateCredential", "Transaction", "lockCredentialRecord", "Delete", "Update", "Preload")
 	l.def("revokeCalls", "List String", leanStrList(rcl), rcl)
 
 	// Credential
 	cconds, ccalls := c11Conds(c11Method(issF, "StatusList2021", "Credential"))
 	cc := c11Filter(cconds, "isManaged", "minTimeUntilExpired")
 	l.def("credentialConds", "List String", leanStrList(cc), cc)
-	ccl := c11Filter(ccalls, "Create", "updateCredential", "Transaction", "lockCredentialRecord", "loadCredential")
+	ccl := c11Filter(ccalls, "Create", "updateCredential", "Transaction", "lockCredentialRecord", "loadCredential", "Preload", "isManaged")
 	l.def("credentialCalls", "List String", leanStrList(ccl), ccl)
 
 	// buildAndSignVC: exp := iss.Add(statusListValidity)
